@@ -96,11 +96,6 @@ theorem greedy_lookup {P : Type} (rel : P → P → Bool) (pts reps : List P)
 
 /-! ### 2-D: what `to_csv` writes -/
 
-/-- specification of the written rows: fracture k contributes `[k, a.x, a.y, b.x, b.y]` -/
-def rowsSpec {V T : Type} (c : Codec V T) : Nat → List (Frac2 V) → List (Line T)
-  | _, [] => []
-  | k, f :: fs => .data [c.encIdx k, c.enc f.a.1, c.enc f.a.2, c.enc f.b.1, c.enc f.b.2] :: rowsSpec c (k + 1) fs
-
 theorem rows2_spec {V T : Type} (c : Codec V T) (U : List (Pt2 V)) (fs : List (Frac2 V)) (m : List Nat) (k : Nat)
     (hm : m.map (fun i => U[i]?) = (endpoints fs).map some) :
     rows2 c U k (pairIdx m) = .ok (rowsSpec c k fs) := by
@@ -138,9 +133,6 @@ def valsSpec {V : Type} (n : Num V) : Nat → List (Frac2 V) → List (List V)
 def idVals {V : Type} (n : Num V) : Nat → List (Frac2 V) → List V
   | _, [] => []
   | k, _ :: fs => n.ofIdx k :: idVals n (k + 1) fs
-
-/-- a fracture as the reader without tag columns returns it -/
-def strip {V : Type} (f : Frac2 V) : Frac2 V := ⟨f.a, f.b, []⟩
 
 theorem decode_rowsSpec {V T : Type} (c : Codec V T) (n : Num V) (hF : Faithful c n) (k : Nat)
     (fs : List (Frac2 V)) :
@@ -315,5 +307,300 @@ theorem mkFrac_pairTag {V : Type} (degen : Pt2 V → Pt2 V → Bool) (U : List (
       rfl
     | [], hm => simp [endpoints] at hm
     | [_], hm => simp [endpoints] at hm
+
+theorem seqEdges_length (k : Nat) (ts : List (List Int)) : (seqEdges k ts).length = ts.length := by
+  induction ts generalizing k with
+  | nil => rfl
+  | cons t ts ih => simp only [seqEdges, List.length_cons, ih (k + 2)]
+
+/-- second half of the reader on the point list of a network written by `to_csv` -/
+theorem finishCore_spec {V : Type} (n : Num V) (near degen : Pt2 V → Pt2 V → Bool) (d : Box2 V)
+    (fs : List (Frac2 V)) (ids : List V) (hids : ids.length = fs.length)
+    (hnear : ∀ p ∈ endpoints fs, ∀ q ∈ endpoints fs, near p q = true → p = q)
+    (hlen : ∀ f ∈ fs, f.a ≠ f.b) (hdeg : ∀ f ∈ fs, degen f.a f.b = false) :
+    finishCore n near degen d (endpoints fs) ((seqEdges 0 (List.replicate fs.length [])).zip ids)
+      = .ok ⟨fs.map strip, some d, ids.map n.toIdx⟩ := by
+  have hm := greedy_lookup near (endpoints fs) [] (fun x hx p hp h => by
+    rcases hx with hx | hx
+    · cases hx
+    · exact hnear x hx p hp h)
+  have hfst : ((seqEdges 0 (List.replicate fs.length [])).zip ids).map (·.1)
+      = seqEdges 0 (List.replicate fs.length []) :=
+    List.map_fst_zip (by rw [seqEdges_length, List.length_replicate, hids]; exact Nat.le_refl _)
+  have hsnd : ((seqEdges 0 (List.replicate fs.length [])).zip ids).map (·.2) = ids :=
+    List.map_snd_zip (by rw [seqEdges_length, List.length_replicate, hids]; exact Nat.le_refl _)
+  have hlook := seqEdges_lookup (List.replicate fs.length []) [] (greedy near [] (endpoints fs)).2
+    (by rw [m_length _ fs _ hm, List.length_replicate])
+  simp only [List.nil_append, List.length_nil] at hlook
+  have hes := pairTag_length _ fs _ hm
+  have hfilter : ((pairTag (greedy near [] (endpoints fs)).2 (List.replicate fs.length [])).zip ids).filter
+      (fun p => p.1.1 != p.1.2.1)
+      = (pairTag (greedy near [] (endpoints fs)).2 (List.replicate fs.length [])).zip ids :=
+    List.filter_eq_self.mpr (fun p hp => pairTag_ne _ fs _ hm hlen p.1 (List.of_mem_zip hp).1)
+  have h1 : ((pairTag (greedy near [] (endpoints fs)).2 (List.replicate fs.length [])).zip ids).map (·.1)
+      = pairTag (greedy near [] (endpoints fs)).2 (List.replicate fs.length []) :=
+    List.map_fst_zip (by rw [hes, hids]; exact Nat.le_refl _)
+  have h2 : ((pairTag (greedy near [] (endpoints fs)).2 (List.replicate fs.length [])).zip ids).map
+      (fun p => n.toIdx p.2) = ids.map n.toIdx := by
+    rw [← List.map_snd_zip (l₁ := pairTag (greedy near [] (endpoints fs)).2 (List.replicate fs.length []))
+      (l₂ := ids) (by rw [hes, hids]; exact Nat.le_refl _), List.map_map]
+    rw [List.map_snd_zip (by rw [hes, hids]; exact Nat.le_refl _)]
+    rfl
+  simp only [finishCore, hfst, hsnd, hlook, hfilter, h1, h2, mkFrac_pairTag degen _ fs _ hm hdeg]
+
+theorem domOr_cons_isSome {V : Type} (n : Num V) (dom : Option (Box2 V)) (f : Frac2 V) (fs : List (Frac2 V)) :
+    ∃ d, domOr n dom (endpoints (f :: fs)) = some d := by
+  cases dom with
+  | some d => exact ⟨d, rfl⟩
+  | none => exact ⟨_, rfl⟩
+
+theorem read2dRows_spec {V T : Type} [DecidableEq V] (c : Codec V T) (n : Num V) (hF : Faithful c n)
+    (near degen : Pt2 V → Pt2 V → Bool) (fs : List (Frac2 V)) (hne : fs ≠ []) (skip : Nat)
+    (dom : Option (Box2 V))
+    (hnear : ∀ p ∈ endpoints fs, ∀ q ∈ endpoints fs, near p q = true → p = q)
+    (hlen : ∀ f ∈ fs, f.a ≠ f.b) (hdeg : ∀ f ∈ fs, degen f.a f.b = false) :
+    read2dRows n near degen (valsSpec n 0 fs) ⟨skip, none, none, false, dom⟩
+      = .ok ⟨fs.map strip, domOr n dom (endpoints fs), (List.range' 0 fs.length).map Int.ofNat⟩ := by
+  cases fs with
+  | nil => exact absurd rfl hne
+  | cons f fs' =>
+    have hcols : ptCols (((valsSpec n 0 (f :: fs')).head?.map List.length).getD 0) none = [1, 2, 3, 4] := by
+      simp only [valsSpec, List.head?_cons, Option.map_some, List.length_cons, List.length_nil,
+        Option.getD_some]
+      decide
+    obtain ⟨d, hd⟩ := domOr_cons_isSome n dom f fs'
+    have hfin := finishCore_spec n near degen d (f :: fs') (idVals n 0 (f :: fs'))
+      (idVals_length n 0 _) hnear hlen hdeg
+    simp only [read2dRows, hcols, sel_valsSpec, pairUp_sel, tags_valsSpec, heads_valsSpec, finish2, hd,
+      hfin, idVals_toIdx c n hF]
+    rfl
+
+/-! ### 3-D -/
+
+theorem decodeRow_map_enc {V T : Type} (c : Codec V T) (n : Num V) (hF : Faithful c n) (e : Err) (l : List V) :
+    decodeRow c e (l.map c.enc) = .ok l := by
+  induction l with
+  | nil => rfl
+  | cons v l ih =>
+    simp only [decodeRow, decodeWith] at ih
+    simp only [decodeRow, decodeWith, List.map_cons, mapE, hF.dec_enc, ih]
+
+theorem triples_flat3 {V : Type} (f : List (Pt3 V)) : triples (flat3 f) = .ok f := by
+  induction f with
+  | nil => rfl
+  | cons p ps ih => simp only [flat3, triples, ih]
+
+theorem readFracs_rows {V T : Type} (c : Codec V T) (n : Num V) (hF : Faithful c n)
+    (norm : List (Pt3 V) → Except Err (List (Pt3 V))) (fracs : List (List (Pt3 V)))
+    (hne : ∀ f ∈ fracs, f ≠ []) :
+    readFracs c norm (fracs.map (fun f => Line.data ((flat3 f).map c.enc))) = mapE norm fracs := by
+  induction fracs with
+  | nil => rfl
+  | cons f fs ih =>
+    have ih' := ih (fun g hg => hne g (List.mem_cons_of_mem _ hg))
+    cases f with
+    | nil => exact absurd rfl (hne [] (List.mem_cons_self))
+    | cons p ps =>
+      have hdec := decodeRow_map_enc c n hF .value (flat3 (p :: ps))
+      have htr := triples_flat3 (p :: ps)
+      simp only [flat3, List.map_cons] at hdec htr
+      simp only [List.map_cons, flat3, readFracs, hdec, htr, mapE]
+      rw [ih']
+      cases norm (p :: ps) with
+      | error e => rfl
+      | ok b => cases mapE norm fs <;> rfl
+
+theorem mapE_pointwise {α β : Type} (f : α → Except Err β) (R : β → α → Prop) (l : List α) (r : List β)
+    (h : ∀ a ∈ l, ∀ b, f a = .ok b → R b a) (hr : mapE f l = .ok r) : Pointwise R r l := by
+  induction l generalizing r with
+  | nil =>
+    simp only [mapE] at hr
+    cases hr
+    exact .nil
+  | cons a as ih =>
+    simp only [mapE] at hr
+    cases hfa : f a with
+    | error e => simp [hfa] at hr
+    | ok b =>
+      cases hm : mapE f as with
+      | error e => simp [hfa, hm] at hr
+      | ok bs =>
+        simp only [hfa, hm] at hr
+        cases hr
+        exact .cons (h a (List.mem_cons_self) b hfa)
+          (ih bs (fun x hx => h x (List.mem_cons_of_mem _ hx)) hm)
+
+/-! ### txt: header -/
+
+theorem splitAux_word (w : List Char) (hw : ∀ ch ∈ w, isWs ch = false) (cur rest : List Char)
+    (hne : cur ++ w ≠ []) :
+    splitAux (w ++ ' ' :: rest) cur = (cur ++ w) :: splitAux rest [] := by
+  induction w generalizing cur with
+  | nil =>
+    have hc : cur ≠ [] := by simpa using hne
+    have : cur.isEmpty = false := by
+      cases cur with
+      | nil => exact absurd rfl hc
+      | cons _ _ => rfl
+    simp only [List.nil_append, splitAux, List.append_nil, this]
+    rfl
+  | cons ch w ih =>
+    have h1 : isWs ch = false := hw ch (List.mem_cons_self)
+    have := ih (fun x hx => hw x (List.mem_cons_of_mem _ hx)) (cur ++ [ch]) (by simp)
+    simp only [List.cons_append, splitAux, h1]
+    simpa using this
+
+theorem split_join (names : List Name) (h : ∀ w ∈ names, w ≠ [] ∧ ∀ ch ∈ w, isWs ch = false) :
+    splitAux (joinNames names) [] = names := by
+  induction names with
+  | nil => rfl
+  | cons w ws ih =>
+    have hw := h w (List.mem_cons_self)
+    simp only [joinNames]
+    rw [splitAux_word w hw.2 [] _ (by simpa using hw.1)]
+    simp only [List.nil_append, ih (fun x hx => h x (List.mem_cons_of_mem _ hx))]
+
+theorem lstrip_header (names : List Name) (h : ∀ w ∈ names, w ≠ [] ∧ ∀ ch ∈ w, isWs ch = false)
+    (hfirst : ∀ w, names.head? = some w → w.head? ≠ some '#') :
+    lstripHash (headerLine names) = joinNames names := by
+  cases names with
+  | nil => rfl
+  | cons w ws =>
+    have hw := h w (List.mem_cons_self)
+    have hf := hfirst w rfl
+    cases w with
+    | nil => exact absurd rfl hw.1
+    | cons ch w' =>
+      have h1 : isWs ch = false := hw.2 ch (List.mem_cons_self)
+      have h2 : ch ≠ '#' := by
+        intro hc; subst hc; exact hf rfl
+      have h3 : ch ≠ ' ' := by
+        intro hc; subst hc; simp [isWs] at h1
+      have h4 : (ch == '#' || ch == ' ') = false := by simp [h2, h3]
+      simp only [headerLine, joinNames, lstripHash, List.cons_append, h4]
+      rfl
+
+theorem readNames_headerLine (names : List Name) (h : ∀ w ∈ names, w ≠ [] ∧ ∀ ch ∈ w, isWs ch = false)
+    (hfirst : ∀ w, names.head? = some w → w.head? ≠ some '#') :
+    readNames (headerLine names) = names := by
+  simp only [readNames, lstrip_header names h hfirst, split_join names h]
+
+/-! ### txt: table -/
+
+theorem replicate_nil_of_forall {α : Type} (cols : List (List α)) (h : ∀ c ∈ cols, c.length = 0) :
+    List.replicate cols.length [] = cols := by
+  induction cols with
+  | nil => rfl
+  | cons c cols ih =>
+    have hc : c = [] := List.eq_nil_of_length_eq_zero (h c (List.mem_cons_self))
+    subst hc
+    simp only [List.length_cons, List.replicate_succ, ih (fun x hx => h x (List.mem_cons_of_mem _ hx))]
+
+theorem zipWith_heads_tails {α : Type} (cols : List (List α)) (k : Nat) (h : ∀ c ∈ cols, c.length = k + 1) :
+    List.zipWith (· :: ·) (cols.filterMap List.head?) (cols.map List.tail) = cols := by
+  induction cols with
+  | nil => rfl
+  | cons c cols ih =>
+    have hc := h c (List.mem_cons_self)
+    cases c with
+    | nil => simp at hc
+    | cons x xs =>
+      simp only [List.filterMap_cons, List.head?_cons, List.map_cons, List.tail_cons, List.zipWith_cons_cons,
+        ih (fun y hy => h y (List.mem_cons_of_mem _ hy))]
+
+theorem heads_length {α : Type} (cols : List (List α)) (k : Nat) (h : ∀ c ∈ cols, c.length = k + 1) :
+    (cols.filterMap List.head?).length = cols.length := by
+  induction cols with
+  | nil => rfl
+  | cons c cols ih =>
+    have hc := h c (List.mem_cons_self)
+    cases c with
+    | nil => simp at hc
+    | cons x xs =>
+      simp only [List.filterMap_cons, List.head?_cons, List.length_cons,
+        ih (fun y hy => h y (List.mem_cons_of_mem _ hy))]
+
+theorem tails_length {α : Type} (cols : List (List α)) (k : Nat) (h : ∀ c ∈ cols, c.length = k + 1) :
+    ∀ c ∈ cols.map List.tail, c.length = k := by
+  intro c hc
+  obtain ⟨d, hd, rfl⟩ := List.mem_map.mp hc
+  have := h d hd
+  simp only [List.length_tail, this, Nat.add_sub_cancel]
+
+theorem transpose_rowsOf {α : Type} (k : Nat) (cols : List (List α)) (h : ∀ c ∈ cols, c.length = k) :
+    transposeRows cols.length (rowsOf k cols) = cols := by
+  induction k generalizing cols with
+  | zero => simp only [rowsOf, transposeRows, replicate_nil_of_forall cols h]
+  | succ k ih =>
+    have := ih (cols.map List.tail) (tails_length cols k h)
+    rw [List.length_map] at this
+    simp only [rowsOf, transposeRows, this, zipWith_heads_tails cols k h]
+
+theorem rowsOf_row_length {α : Type} (k : Nat) (cols : List (List α)) (h : ∀ c ∈ cols, c.length = k) :
+    ∀ r ∈ rowsOf k cols, r.length = cols.length := by
+  induction k generalizing cols with
+  | zero => intro r hr; cases hr
+  | succ k ih =>
+    intro r hr
+    simp only [rowsOf, List.mem_cons] at hr
+    rcases hr with rfl | hr
+    · exact heads_length cols k h
+    · have := ih (cols.map List.tail) (tails_length cols k h) r hr
+      rwa [List.length_map] at this
+
+theorem sameLen_of_forall {α : Type} (rows : List (List α)) (n : Nat) (h : ∀ r ∈ rows, r.length = n) :
+    sameLen rows = true := by
+  cases rows with
+  | nil => rfl
+  | cons r rs =>
+    simp only [sameLen, List.all_eq_true, beq_iff_eq]
+    intro s hs
+    rw [h s (List.mem_cons_of_mem _ hs), h r (List.mem_cons_self)]
+
+theorem columnsOf_rowsOf {α : Type} (k : Nat) (cols : List (List α)) (h : ∀ c ∈ cols, c.length = k) :
+    columnsOf cols.length (rowsOf k cols) = cols := by
+  cases k with
+  | zero => simp only [rowsOf, columnsOf, replicate_nil_of_forall cols h]
+  | succ k =>
+    have hl := heads_length cols k h
+    have := transpose_rowsOf (k + 1) cols h
+    simp only [rowsOf] at this
+    simp only [rowsOf, columnsOf, hl, this]
+
+/-- columns as written (`enc fmt v`) and as read back (`rnd fmt v`) -/
+def encCols {V F T : Type} (enc : F → V → T) (cols : List (TxtCol V F)) : List (List T) :=
+  cols.map (fun c => c.arr.map (enc c.fmt))
+
+def tailCols {V F : Type} (cols : List (TxtCol V F)) : List (TxtCol V F) :=
+  cols.map (fun c => { c with arr := c.arr.tail })
+
+theorem encCols_tail {V F T : Type} (enc : F → V → T) (cols : List (TxtCol V F)) :
+    (encCols enc cols).map List.tail = encCols enc (tailCols cols) := by
+  simp only [encCols, tailCols, List.map_map]
+  apply List.map_congr_left
+  intro c _
+  simp only [Function.comp, List.map_tail]
+
+theorem decode_heads {V F T : Type} (enc : F → V → T) (dec : T → Option V) (rnd : F → V → V)
+    (hcodec : ∀ f v, dec (enc f v) = some (rnd f v)) (e : Err) (cols : List (TxtCol V F)) :
+    decodeWith dec e ((encCols enc cols).filterMap List.head?)
+      = .ok ((encCols rnd cols).filterMap List.head?) := by
+  induction cols with
+  | nil => rfl
+  | cons c cols ih =>
+    simp only [decodeWith, encCols] at ih
+    cases hc : c.arr with
+    | nil => simp only [decodeWith, encCols, List.map_cons, hc, List.map_nil, List.filterMap_cons,
+        List.head?_nil, ih]
+    | cons v vs => simp only [decodeWith, encCols, List.map_cons, hc, List.filterMap_cons, List.head?_cons,
+        mapE, hcodec, ih]
+
+theorem decode_rowsOf {V F T : Type} (enc : F → V → T) (dec : T → Option V) (rnd : F → V → V)
+    (hcodec : ∀ f v, dec (enc f v) = some (rnd f v)) (e : Err) (k : Nat) (cols : List (TxtCol V F)) :
+    mapE (decodeWith dec e) (rowsOf k (encCols enc cols)) = .ok (rowsOf k (encCols rnd cols)) := by
+  induction k generalizing cols with
+  | zero => rfl
+  | succ k ih =>
+    simp only [rowsOf, mapE, decode_heads enc dec rnd hcodec e cols, encCols_tail, ih (tailCols cols)]
 
 end PorepyVerif.C47
